@@ -597,6 +597,106 @@ func fmRaceBody(g lstore.Geometry) func() {
 	}
 }
 
+// discardRefreshBody: aged store; x lies in an old block and is corrupted. A client obtains Get(x) (the store
+// starts copying x to the newest block behind a cloned buffer) and abandons the download with Discard, in
+// either order relative to the copy's registration with the shared stream. The copy must still be
+// validated: whatever happens, afterwards x is not served, and a later read of x must not take blocks newer
+// than x's original one with it (which it would if the corrupted bytes had been copied, unnoticed, into the
+// newest block).
+func discardRefreshBody(g lstore.Geometry) func() {
+	return func() {
+		w := newWorld(g)
+		for i := 0; i < 2; i++ {
+			f := casObj("R16", fmt.Sprintf("ageing-filler-%02d", i))
+			if err := w.put(f); err != nil {
+				vsched.HarnessFail("ageing upload: %v", err)
+			}
+		}
+		w.locate()
+		var x *obj
+		for _, o := range w.objs {
+			if w.s.NeedsRefresh(o.Digest) && (x == nil || o.block > x.block) {
+				x = o
+			}
+		}
+		if x == nil {
+			vsched.HarnessFail("ageing did not produce an old block")
+		}
+		for _, o := range w.objs {
+			o.off = w.findOnDevice(o)
+		}
+		bx := x.block
+		var newer []*obj
+		for _, o := range w.objs {
+			if o.block > bx {
+				newer = append(newer, o)
+			}
+		}
+		w.corrupt(x.off, len(x.Content))
+		b := w.s.BA.Get(context.Background(), x.Digest)
+		if vsched.ChooseFree("choice", 2) == 0 {
+			b.Discard()
+			vsched.Obs("discarded")
+		} else {
+			_, err := b.ToByteSlice(100)
+			vsched.Obs("consumed=%s", status.Code(err))
+			if err == nil {
+				failf("corrupted-read-completed", "Get(%s) completed although its bytes are corrupted", x.Name)
+			}
+		}
+		vsched.WaitQuiescent()
+		d, err := w.s.Get(x.Digest)
+		vsched.Obs("second=%s", status.Code(err))
+		if err == nil {
+			failf("corrupted-read-completed", "second Get(%s) returned %q although its bytes are corrupted", x.Name, d)
+		}
+		vsched.WaitQuiescent()
+		for _, o := range newer {
+			if !w.indexHas(o) && w.s.IndexDiscards() == 0 {
+				failf("healthy-newer-block-quarantined", "x=%s was corrupted in block %d; %s sat in the newer block %d and is no longer resolvable after two reads of x: the corruption travelled, unnoticed, into a newer block with the refresh copy", x.Name, bx, o.Name, o.block)
+			}
+		}
+		vsched.Mark()
+	}
+}
+
+// persistentBody: the quarantine on a persistent block list (blocks carry epochs; popping recent blocks is
+// something only a quarantine does).
+func persistentBody(g lstore.Geometry) func() {
+	return func() {
+		w := newWorld(g)
+		if vsched.ChooseFree("choice", 2) == 1 {
+			n := w.s.StepSyncers(context.Background(), 1)
+			vsched.Obs("sync=%d", n)
+		}
+		x := w.objs[vsched.ChooseFree("choice", len(w.objs))]
+		w.corrupt(x.off, len(x.Content))
+		_, err := w.s.Get(x.Digest)
+		vsched.Obs("detect %s=%s", x.Name, status.Code(err))
+		if err == nil {
+			failf("corrupted-read-completed", "Get(%s) completed although its bytes are corrupted", x.Name)
+		}
+		if status.Code(err) != codes.Internal {
+			failf("corrupted-read-code-"+status.Code(err).String(), "Get(%s) of corrupted data failed with %v (want INTERNAL)", x.Name, err)
+		}
+		for i := 0; i < 3; i++ {
+			n := casObj(fmt.Sprintf("N%d", i), fmt.Sprintf("new-%d!", i))
+			if err := w.put(n); err != nil {
+				failf("upload-after-detection-fails-"+status.Code(err).String(), "upload %d after the detection failed: %v (the store must keep accepting uploads)", i, err)
+			}
+			if d, err := w.s.Get(n.Digest); err != nil || !bytes.Equal(d, n.Content) {
+				failf("fresh-upload-unreadable", "Get of an object uploaded after detection = %q, %v", d, err)
+			}
+		}
+		if d, err := w.s.Get(x.Digest); err == nil {
+			failf("quarantined-object-served", "Get(%s) returned %q after its corruption had been detected", x.Name, d)
+		} else if status.Code(err) != codes.NotFound {
+			failf("quarantined-object-error-"+status.Code(err).String(), "Get(%s) after the detection failed with %v (want NOT_FOUND)", x.Name, err)
+		}
+		vsched.Mark()
+	}
+}
+
 // hierDedupBody: hierarchical store, X and Y stored under instance name a in the same block; the bytes of Y
 // are corrupted. A gated upload of X under instance name b (which the store de-duplicates against the copy
 // it already holds instead of storing the data again) is in flight while Get(a/Y) detects the corruption.
@@ -698,6 +798,10 @@ func main() {
 		scs = append(scs, mc.Scenario{Name: fmt.Sprintf("conc/variant%d", v), Space: []string{"detecting Get(x) || upload in flight into x's block || Get(neighbour)", "detecting Get(x) || upload in flight into x's block || three block-sized uploads forcing rotations", "x in the oldest block: detection || upload || three block-sized uploads forcing rotations", "x in a middle block: detection || upload || three block-sized uploads forcing rotations"}[v] + " on " + cg.String(), Bound: ev.Pick(r, 2, 3), Body: concBody(cg, v), Budget: time.Duration(ev.Pick(r, 40, 400)) * time.Second})
 	}
 	scs = append(scs, mc.Scenario{Name: "conc/findmissing-refresh-race", Space: "aged store (first blocks old), x corrupted in a newer block: detecting Get(x) || FindMissing(all objects) whose second pass copies the objects of the old blocks, on " + cg.String(), Bound: ev.Pick(r, 2, 3), Body: fmRaceBody(cg), Budget: time.Duration(ev.Pick(r, 40, 400)) * time.Second})
+	scs = append(scs, mc.Scenario{Name: "conc/abandoned-refreshing-read", Space: "aged store, x corrupted in an old block: Get(x) (refresh copy behind a cloned buffer) abandoned with Discard or consumed, every order of the two consumers' registration; then a second Get(x); blocks newer than x's must survive, on " + cg.String(), Bound: ev.Pick(r, 2, 3), Body: discardRefreshBody(cg), Budget: time.Duration(ev.Pick(r, 40, 400)) * time.Second})
+	pg := base
+	pg.Persistent, pg.IndexOnDevice, pg.MinEpochInterval, pg.ErrorRetry = true, true, 10*time.Second, 3*time.Second
+	scs = append(scs, mc.Scenario{Name: "seq/persistent", Space: fmt.Sprintf("persistent block list (epochs; optionally one step of the syncer loops before the corruption, so that the quarantine pops blocks whose epochs are synchronised, synchronising or neither): every one of 8 objects corrupted in turn, detecting Get, then uploads and reads: the store keeps accepting uploads, the corrupted object stays absent, on %s", pg), Bound: 0, Body: persistentBody(pg), Budget: time.Duration(ev.Pick(r, 60, 400)) * time.Second})
 	hg := base
 	hg.Hierarchical, hg.New, hg.DataGates = true, 2, true
 	scs = append(scs, mc.Scenario{Name: "conc/hier-dedup-upload", Space: "hierarchical store: detecting Get(a/Y) || gated upload of X under instance name b while a/X (same block as Y) is what the store de-duplicates against, on " + hg.String(), Bound: ev.Pick(r, 2, 3), Body: hierDedupBody(hg), Budget: time.Duration(ev.Pick(r, 40, 400)) * time.Second})
